@@ -305,6 +305,18 @@ def _looks_not_encodable(e):
     s = str(e)
     if 'NoneType' in s:
         return False      # the library produced None and used it: a result of the code under test
+    import re as _re
+    m = _re.match(r"unsupported operand type\(s\) for [^:]+: '(\w+)' and '(\w+)'", s)
+    if m and not (m.group(1) in ('Term', 'SBool') and m.group(2) in ('Term', 'SBool')) \
+            and not ({m.group(1), m.group(2)} & {'float', 'int', 'ndarray', 'float64'}):
+        return False      # Python's own operator dispatch rejecting a library object paired with a scalar
+    if "can't multiply sequence by non-int" in s:
+        return False
+    if "object is not iterable" in s or "object is not subscriptable" in s or "has no len()" in s:
+        return False      # the library treated a scalar/bool as a sequence: same failure with float/bool
+    m = _re.match(r"'(Term|SBool)' object has no attribute '(\w+)'", s)
+    if m and not hasattr(1.0 if m.group(1) == 'Term' else True, m.group(2)):
+        return False      # a float / bool has no such attribute either
     return isinstance(e, (TypeError, AttributeError)) and ('Term' in s or 'SBool' in s)
 
 
